@@ -62,7 +62,7 @@ CHECKS["C13"] = {
              "Shl,LShr,AShr}, join/meet/widening(+thresholds)/narrowing/inclusion/trim, neg, half lines, "
              "Trunc/SExt/ZExt, to_interval, at: every bit-vector result of every member pair must be a member of the result. "
              "distinct_nontrivial = distinct operand pairs other than 0/1 (wrapint) or bottom/top (intervals). "
-             "Domain job (c13_domain): the wrapped_interval_domain under machine semantics: all operation histories of depth <=4 core / <=3 everything (5 / 4) over "
+             "Domain job (c13_domain): the wrapped_interval_domain under machine semantics: all operation histories of depth <=6 core / <=4 everything (7 / 5) over "
              "an 8-bit variable s8, 32-bit x, y and 64-bit l64 (constants at the signed limits, +1/-1/*2, signed and unsigned division and remainder, "
              "shifts, bitwise operations, havoc, signed assumes, trunc/sext/zext between the widths, x+y, x*y, save/join/widening/meet), executed on "
              "sets of machine states (arithmetic modulo 2^w, constraints read as signed): every state must be in at(v) and satisfy the exported constraints."),
